@@ -85,6 +85,23 @@ Theorem C01_rest_roundtrip_no_types : forall doc ps ret,
 Proof. exact rest_roundtrip_no_types. Qed.
 Print Assumptions C01_rest_roundtrip_no_types.
 
+(* ... and for the docstring as it is written INSIDE a function or a class (indent_level = k+1: every line prefixed with k+1 tabs,
+   wrapped in a leading newline and a trailing newline + tabs), for every k, when the texts hold no line break *)
+From CDD Require Import RestDocIndentProofs.
+Theorem C01_rest_emit_indented_canonical : forall k doc ps ret,
+  clean doc = true -> one_line doc = true -> forallb param_ok ps = true -> forallb param_1l ps = true -> ps <> [] ->
+  ret_ok ret = true -> ret_1l ret = true ->
+  emit_rest_indented (S k) true doc ps ret
+  = grender (S1_of (S k)) (S2_of (S k)) (S1_of (S k)) (S1_of (S k)) (S2_of (S k)) doc ps ret.
+Proof. exact emit_indented_is_grender. Qed.
+Print Assumptions C01_rest_emit_indented_canonical.
+Theorem C01_rest_roundtrip_indented : forall k doc ps ret,
+  clean doc = true -> one_line doc = true -> forallb param_ok ps = true -> forallb param_1l ps = true -> NoDup (map fst ps) -> ps <> [] ->
+  ret_ok ret = true -> ret_1l ret = true ->
+  parse_rest (emit_rest_indented (S k) true doc ps ret) = {| p_doc := doc; p_params := ps; p_ret := ret |}.
+Proof. exact rest_roundtrip_indented. Qed.
+Print Assumptions C01_rest_roundtrip_indented.
+
 (* non-vacuity: a description meeting every hypothesis, and what is written for it *)
 Example C01_rest_example :
   let ps := [(s2l "dataset_name", {| pe_doc := Some (s2l "name of dataset"); pe_typ := Some (s2l "str") |});
